@@ -29,6 +29,9 @@ def scen(name, build, inputs, kws, local=False, tags=()):
 
 scen('seq', lambda o: mk.class_src('K', ['n = Int(1)', 'l = Int(1).repeated(n)', 'z = Int(1)'], o),
      [b'\x02\x05\x06\x07', b'\x00\x09', b'\x01\x01\x01'], [{}, {'n': 1, 'l': [4]}])
+scen('seq-long', lambda o: mk.class_src('K', ['n = Int(1)', 'l = Int(1).repeated(n)', 'w = Int(2).repeated(n)', 'z = Int(1)'], o),
+     [bytes([16]) + bytes(range(16)) + bytes(range(32)) + b'\x09', bytes([17]) + bytes(range(17)) + bytes(range(34)) + b'\x09',
+      bytes([33]) + bytes(range(33)) + bytes(range(66)) + b'\x09'], [{}, {'n': 16, 'l': list(range(16)), 'w': list(range(16))}])
 scen('seq-data', lambda o: mk.class_src('K', ['n = Int(1)', 'l = Data(until_marker=b"\\x00").repeated(n)'], o),
      [b'\x02ab\x00c\x00', b'\x00', b'\x01\x00'], [{}, {'n': 1, 'l': [b'q']}])
 scen('opt', lambda o: mk.class_src('K', ['t = Int(1)', 'o = Int(1).when(t)', 'w = Data(1).when(t == 2)'], o),
